@@ -1412,7 +1412,7 @@ where
         let packet_id_buf = self.packet_id_buf.flatten();
         let props = self.props.unwrap_or(Properties::new());
         let props_size: usize = props.size();
-        let property_length = VariableByteInteger::from_u32(props_size as u32).unwrap();
+        let property_length = VariableByteInteger::from_len(props_size)?;
         let payload = self.payload_buf.unwrap_or_else(ArcPayload::default);
 
         let mut remaining = topic_name_buf.size();
@@ -1421,7 +1421,7 @@ where
         }
         remaining += property_length.size() + props_size;
         remaining += payload.len();
-        let remaining_length = VariableByteInteger::from_u32(remaining as u32).unwrap();
+        let remaining_length = VariableByteInteger::from_len(remaining)?;
 
         Ok(GenericPublish {
             fixed_header,
